@@ -466,7 +466,21 @@ impl<'r> Gen<'r> {
         if self.cfg.long_names && self.rng.chance(1, 40) {
             return format!("com.example.{}", long_name(7, 140));
         }
-        self.rng.pick(ORIG_CLASSES).to_string()
+        let c = self.rng.pick(ORIG_CLASSES).to_string();
+        self.spice(c)
+    }
+
+    /// Now and then a name gets a random letter from six Unicode blocks appended (every
+    /// UTF-8 continuation byte 0x80..0xBF occurs, among them 0x85 and 0xA0, which are
+    /// white space when a byte is misread as Latin-1).
+    fn spice(&mut self, mut s: String) -> String {
+        if !s.is_empty() && self.rng.chance(1, 12) {
+            s.push(crate::rng::unicode_letter(self.rng));
+            if self.rng.chance(1, 3) {
+                s.push(*self.rng.pick(&['x', '$', '1']));
+            }
+        }
+        s
     }
 
     fn file_name(&mut self) -> String {
@@ -494,11 +508,13 @@ impl<'r> Gen<'r> {
         let orig = if self.cfg.hostile && self.rng.chance(1, 40) { String::new() } else { self.rng.pick(ORIG_METHODS).to_string() };
         let obf = if self.cfg.hostile && self.rng.chance(1, 40) { String::new() } else { self.rng.pick(OBF_METHODS).to_string() };
         // kept (-keep) members map onto themselves
-        let orig = if self.rng.chance(1, 10) && !obf.is_empty() { obf.clone() } else { orig };
+        let orig = if self.rng.chance(1, 10) && !obf.is_empty() { obf.clone() } else { self.spice(orig) };
+        let ret = self.rng.pick(RET_TYPES).to_string();
+        let ret = self.spice(ret);
         MethodEntry {
             start,
             end,
-            ret: self.rng.pick(RET_TYPES).to_string(),
+            ret,
             orig_class,
             orig,
             args: self.rng.pick(ARGS).to_string(),
